@@ -8,7 +8,7 @@ from __future__ import annotations
 import re
 
 from sa.cfront import LIB_TUS
-from sa.expr import macro_args, strip, walk, estr, callee, calls
+from sa.expr import macro_args, strip, walk, estr, callee, calls, callname
 
 _ROW = re.compile(r"\bGET_2D_ROW\s*\(")
 
@@ -886,6 +886,20 @@ def alloc_err(ctx, P, scope, rule="ALLOC-ERR", tus=None):
                         if c not in starts and c.ast is not None and c.kind == "stmt" and re.match(r"%s\s*=[^=]" % re.escape(var), " ".join(tu.src(c.ast).split())):
                             continue        # re-assigned before any test
                         todo.extend(s_ for s_, _ in c.succ)
+            tested_vars = {v_ for _, v_ in first_tests}
+            for var, alist in sorted(sites.items()):
+                if var in tested_vars:
+                    continue
+                # `*out = malloc(..); if (*out == NULL)` and `p = malloc(); if (!p)` are written differently: look for any NULL test
+                e_ = re.escape(var)
+                body_src = " ".join(tu.src(fn.body).split())
+                # (`x != NULL` does not count: it is how the cleanup guards free(x))
+                anyt = re.search(r"(%s\s*==\s*NULL|NULL\s*==\s*%s|!\s*%s\b|tsk_bug_assert\(\s*%s\s*!=\s*NULL\s*\))" % (e_, e_, e_, e_), body_src) is not None
+                returned = re.search(r"return\s+(\([^)]*\)\s*)?%s\s*;" % e_, body_src) is not None
+                n += 1
+                ctx.ob(rule, "%s|%s|tested" % (fn.name, var), anyt or returned, tu.loc(alist[0]),
+                       "the allocation of `%s` is tested (or returned to a caller that tests it)" % var if (anyt or returned) else
+                       "`%s` is allocated and never compared with NULL: an allocation failure is dereferenced" % var)
             for c in cfg.nodes:
                 var = null_var(c)
                 if var is None or (c, var) not in first_tests:
@@ -1023,4 +1037,123 @@ def keep_rows_atomic(ctx, P, rule="KEEP-ROWS-ATOMIC"):
         ctx.ob(rule, fn.name, ok, tu.loc(early[0] if early else subs[0]), "all %d compaction calls follow the last error exit" % len(subs) if ok else
                "%s compacts a column (%s) before its last validation error exit: a rejected call has already moved rows" % (fn.name, callee(early[0])))
     ctx.ob(rule, "instances", n >= 8, "c/tskit/tables.c", "%d keep_rows functions" % n)
+    return n
+
+
+def id_array_first_use(ctx, P, rule="ID-ARRAY-VALIDATED"):
+    """Arrays of ids handed to a public library function (const tsk_id_t *) are range-tested before any element is used as a
+    subscript.  Per (function, parameter): TESTS (an element, or a local loaded from one, is compared with < / >=), USES
+    (an element or such a local subscripts another array).  Walking a public function's uses and calls in source order, the
+    first consumer must be a tester (directly, or the callee it is first passed to, transitively)."""
+    ctx.rule(rule, "for every `const tsk_id_t *` parameter of a public libtskit function, the first thing that consumes the array – "
+                   "in the function or in the callee it is first handed to, transitively – range-tests its elements before any "
+                   "element (or a local loaded from one) is used as a subscript of another array; "
+                   "`n = sample_sets[k]; … nodes_time[n]` ahead of the validating callee reads out of bounds for a huge id")
+    funcs = {}
+    for key in LIB_TUS:
+        for f in P.tus[key].funcs.values():
+            if f.body is not None:
+                funcs[f.name] = (key, f)
+    info = {}
+    for name, (key, f) in funcs.items():
+        for i, p_ in enumerate(f.params):
+            if not (p_.name and re.fullmatch(r"const tsk_id_t \*(restrict)?", (p_.ty or "").strip())):
+                continue
+            pn = p_.name
+            loaded = set()
+            for x in walk(f.body):
+                if x.k == "BinaryOperator" and x.op == "=":
+                    r = strip(x.kids[1])
+                    if r is not None and r.k == "ArraySubscriptExpr" and estr(r.kids[0]) == pn:
+                        loaded.add(estr(x.kids[0]))
+                elif x.k == "VarDecl" and x.kids:
+                    r = strip(x.kids[-1])
+                    if r is not None and r.k == "ArraySubscriptExpr" and estr(r.kids[0]) == pn:
+                        loaded.add(x.name)
+            uses, tests = [], False
+            for x in walk(f.body):
+                if x.k == "ArraySubscriptExpr" and estr(x.kids[0]) != pn:
+                    idx = strip(x.kids[1])
+                    if idx is not None and (estr(idx) in loaded or (idx.k == "ArraySubscriptExpr" and estr(idx.kids[0]) == pn)):
+                        uses.append(x)
+                elif x.k == "BinaryOperator" and x.op in ("<", ">=", ">", "<="):
+                    for s_ in x.kids[:2]:
+                        t = estr(s_)
+                        if t in loaded or t.startswith(pn + "["):
+                            tests = True
+            passes = sorted((c.b, callee(c), j) for c in calls(f.body) for j, a in enumerate(c.kids[1:]) if estr(a) == pn)
+            info[(name, i)] = {"uses": uses, "tests": tests, "passes": passes, "pn": pn}
+
+    def first_bad(name, i, seen=()):
+        """the subscript that consumes an unvalidated element first, or None"""
+        if (name, i) in seen or (name, i) not in info:
+            return None
+        d = info[(name, i)]
+        if d["tests"]:
+            return None
+        ev = [(u.b, "use", u, None) for u in d["uses"][:1]] + [(b, "call", g, j) for b, g, j in d["passes"]]
+        for b, kind, g, j in sorted(ev, key=lambda e: e[0]):
+            if kind == "use":
+                return (name, g)
+            if g in funcs:
+                gi = info.get((g, j))
+                if gi and gi["tests"]:
+                    return None
+                r = first_bad(g, j, seen + ((name, i),))
+                if r is not None:
+                    return r
+        return None
+    n = 0
+    for (name, i), d in sorted(info.items()):
+        key, f = funcs[name]
+        if getattr(f, "static", False):
+            continue
+        n += 1
+        bad = first_bad(name, i)
+        tu = P.tus[key]
+        if bad is None:
+            ctx.ob(rule, "%s|%s" % (name, d["pn"]), True, tu.loc(f.node), "`%s` is range-tested before its elements index anything" % d["pn"])
+        else:
+            btu = P.tus[funcs[bad[0]][0]]
+            ctx.ob(rule, "%s|%s" % (name, d["pn"]), False, btu.loc(bad[1]),
+                   "an element of `%s` reaches `%s` in %s before anything has range-tested it" % (d["pn"], " ".join(btu.src(bad[1]).split())[:40], bad[0]))
+    ctx.ob(rule, "instances", n >= 30, "c/tskit", "%d public (function, id-array parameter) pairs" % n)
+    return n
+
+
+def alloc_size_bounded(ctx, P, rule="ALLOC-SIZE-BOUNDED"):
+    """A count parsed from a Python argument that sizes an allocation (`PyMem_Malloc(n * sizeof …)`) has an upper bound."""
+    from sa import modinfo
+    ctx.rule(rule, "in the extension module an integer parsed from a Python argument that multiplies a sizeof in an allocation is "
+                   "bounded above first (an `n > limit` / `n >= limit` test that raises, or a clamp `n = limit`): otherwise a huge "
+                   "value wraps the byte count to something small and the library writes past the buffer")
+    tu = P.tus["module"]
+    n = 0
+    for fn in tu.funcs.values():
+        if fn.body is None:
+            continue
+        parsed = set()
+        for pc in modinfo.parse_calls(tu, fn):
+            slots, _used = modinfo.dest_slots(pc)
+            for u, ds in slots:
+                if u in ("n", "i", "l", "L", "I", "k", "K") and ds:
+                    d = strip(ds[0])
+                    if d is not None and d.k == "UnaryOperator" and d.op == "&":
+                        parsed.add(estr(strip(d.kids[0])))
+        if not parsed:
+            continue
+        src = " ".join(tu.src(fn.body).split())
+        for c in calls(fn.body):
+            if callname(c) not in ALLOCATORS and callee(c) not in ALLOCATORS:
+                continue
+            sz = " ".join(tu.src(c.kids[-1]).split()) if len(c.kids) > 1 else ""
+            for v in sorted(parsed):
+                if re.search(r"\b%s\b" % re.escape(v), sz) and "sizeof" in sz:
+                    n += 1
+                    e = re.escape(v)
+                    upper = re.search(r"\b%s\s*(>|>=)\s*[^=]|[^=<>]\s(<|<=)\s*%s\b" % (e, e), src) is not None
+                    ctx.ob(rule, "%s|%s" % (fn.name, v), upper, tu.loc(c),
+                           "`%s` is bounded above before it sizes `%s`" % (v, sz[:40]) if upper else
+                           "`%s` comes straight from a Python argument and sizes `%s` with no upper bound: the product can wrap" % (v, sz[:40]))
+    ctx.ob(rule, "instances", n >= 1, "python/_tskitmodule.c", "%d allocations sized by a parsed argument" % n)
     return n
